@@ -2,7 +2,9 @@ package c20
 
 import (
 	"fmt"
+	"os"
 	"sort"
+	"strconv"
 	"strings"
 
 	"verifharness/kit"
@@ -152,6 +154,9 @@ func genTable(r *kit.Rand) []string {
 	if r.Chance(1, 25) {
 		admin = "1"
 	}
+	if r.Chance(1, 30) {
+		g = nil // no grants at all: `len(u.privileges) > 0` is false
+	}
 	lines := []string{fmt.Sprintf("user u pw %s %s", admin, grantsToken(g))}
 	for _, q := range cleanQueries() {
 		lines = append(lines, "az u "+kit.Esc(q))
@@ -224,9 +229,25 @@ func genHTTP(r *kit.Rand) []string {
 				g[node] = kit.Pick(r, privLists)
 			}
 		}
+		if r.Chance(1, 2) {
+			// one spelling per node: a table with two entries for the same node is outside the statement
+			// (the Go map keeps whichever its random iteration order writes last)
+			if k := kit.Pick(r, []string{"/", "/api", "/api/"}); k == "/api/" {
+				delete(g, "/api")
+				g[k] = kit.Pick(r, [][]int{{2, 4, 8}, {16}, {2, 4}, {4}})
+			} else {
+				g[k] = kit.Pick(r, [][]int{{2, 4, 8}, {16}, {2, 4}, {4}})
+			}
+		}
+		if r.Chance(1, 2) {
+			g[kit.Pick(r, []string{"/database", "/database/db_clean", "/database/a_b__dirty"})] = kit.Pick(r, [][]int{{4}, {16}, {2, 4}, {2}})
+		}
 		admin := "0"
 		if r.Chance(1, 12) {
 			admin = "1"
+		}
+		if r.Chance(1, 15) {
+			g = nil
 		}
 		lines = append(lines, fmt.Sprintf("user %s pw-%s %s %s", n, n, admin, grantsToken(g)))
 	}
@@ -242,7 +263,11 @@ func genHTTP(r *kit.Rand) []string {
 	cred := func() string {
 		n := kit.Pick(r, names)
 		e := kit.Esc
-		switch r.Intn(20) {
+		k := r.Intn(16)
+		if r.Chance(1, 2) {
+			k = 16 + r.Intn(4) // half of the requests carry a valid password
+		}
+		switch k {
 		case 0:
 			return "absent,%,%,%,%,%"
 		case 1:
@@ -280,6 +305,13 @@ func genHTTP(r *kit.Rand) []string {
 		}
 	}
 	dbs := []string{"", "db", "a/b", "a_b/", "a/b_", "other", "db/"}
+	// directed: every method on a plain route and on the write route with each user's valid password
+	for _, n := range names {
+		for _, m := range httpMethods[:7] {
+			lines = append(lines, fmt.Sprintf("http 1 %s %s basic,%s,%s,%%,%%,%% %%", m, kit.Esc(kit.Pick(r, urlPaths[:4])), kit.Esc(n), kit.Esc("pw-"+n)))
+		}
+		lines = append(lines, fmt.Sprintf("http 1 POST /kapacitor/v1/write basic,%s,%s,%%,%%,%% %s", kit.Esc(n), kit.Esc("pw-"+n), kit.Esc(kit.Pick(r, dbs))))
+	}
 	for i := 0; i < 120; i++ {
 		ra := "1"
 		if r.Chance(1, 10) {
@@ -291,7 +323,10 @@ func genHTTP(r *kit.Rand) []string {
 		} else {
 			m = kit.Pick(r, httpMethods)
 		}
-		p := kit.Pick(r, urlPaths)
+		p := kit.Pick(r, urlPaths[:16])
+		if r.Chance(1, 6) {
+			p = kit.Pick(r, urlPaths[16:])
+		}
 		if r.Chance(1, 3) {
 			p = kit.Pick(r, []string{"/kapacitor/v1/write", "/write", "/kapacitor/v1preview/write"})
 			m = "POST"
@@ -360,9 +395,13 @@ func genDB(out *kit.Out, single, pair int) {
 func generate(out *kit.Out, f kit.Flags) {
 	r := kit.NewRand(f.Seed)
 	thorough := f.Tier == "thorough"
-	// the exhaustive parts do not depend on the seed: run them for the first seed of a run only
-	// (bin/check starts seeds S, S+1000003, …; `-first 1` is not available, so key on seed parity of the offset)
-	exhaustive := f.Extra["noexh"] == ""
+	// the exhaustive parts do not depend on the seed: run them once per check, for the base seed only
+	// (bin/check starts seeds S, S+1000003, …, and hands VERIF_SEED=S down; default S=1); `-exh 1` forces them.
+	base := uint64(1)
+	if v, err := strconv.ParseUint(os.Getenv("VERIF_SEED"), 10, 64); err == nil {
+		base = v
+	}
+	exhaustive := f.Extra["noexh"] == "" && (f.Seed == base || f.Extra["exh"] != "")
 	if exhaustive {
 		if thorough {
 			genPathMachine(out, 6)
